@@ -2103,9 +2103,15 @@ impl<Front: SocketHandler + std::fmt::Debug, L: ListenerHandler + L7ListenerHand
                 if !matches!(stream.state, StreamState::Linked(_) | StreamState::Unlinked) {
                     continue;
                 }
+                // Only a request that has been parsed to its end can be treated as
+                // finished: `is_completed()` alone just says nothing is queued right
+                // now, which is also true of an upload whose next DATA frame has not
+                // arrived yet. Marking such a stream would turn the client's next
+                // DATA into GOAWAY(STREAM_CLOSED) and cut the request in flight.
                 if stream.front.consumed
                     && stream.front.storage.is_empty()
                     && stream.front.is_completed()
+                    && stream.front.is_terminated()
                 {
                     stream.front_received_end_of_stream = true;
                     self.frontend
